@@ -121,7 +121,8 @@ def call(what: str, fn: Callable, *a: Any, **k: Any) -> Any:
 
 
 def call_with_timeout(what: str, seconds: int, fn: Callable, *a: Any, **k: Any) -> Any:
-    """Like fn(*a, **k), but a call that does not return within `seconds` is a violation (non-termination).
+    """Like fn(*a, **k), but a call that has not returned after `seconds` of *CPU time* of this process is a
+    violation (non-termination). CPU time, not wall-clock: a loaded machine must not turn slowness into an alarm.
     Exceptions of fn propagate unchanged."""
     import signal
 
@@ -130,16 +131,16 @@ def call_with_timeout(what: str, seconds: int, fn: Callable, *a: Any, **k: Any) 
 
     def handler(signum, frame):  # noqa: ANN001, ARG001
         raise _Timeout()
-    old = signal.signal(signal.SIGALRM, handler)
-    signal.alarm(seconds)
+    old = signal.signal(signal.SIGPROF, handler)
+    signal.setitimer(signal.ITIMER_PROF, float(seconds))
     try:
         return fn(*a, **k)
     except _Timeout:
-        raise Violation(f"{what}: did not return within {seconds} s (non-termination)",
+        raise Violation(f"{what}: did not return within {seconds} s of CPU time (non-termination)",
                         key="hang:" + what.split(" ")[0]) from None
     finally:
-        signal.alarm(0)
-        signal.signal(signal.SIGALRM, old)
+        signal.setitimer(signal.ITIMER_PROF, 0.0)
+        signal.signal(signal.SIGPROF, old)
 
 
 def expect_raises(what: str, excs: tuple, fn: Callable, *a: Any, **k: Any) -> BaseException:
